@@ -42,7 +42,7 @@ from mc.core import Acc, sigkey
 from mc.refmodels import assoc as RM
 
 ID = 'C13'
-RULE = ('class world A, A1:A, B, associations R(x A,y B), R1:R, Q(l A,r A), T(a A,b B,c A), '
+RULE = ('class world A, Aß:A, B, associations R(x A,y B), Rß:R, Q(l A,r A), T(a A,b B,c A), '
         'N(id; l A, r B non-key) in two namespaces; a graph is a subset of a fixed candidate list '
         'of association instances (created with CreateInstance, NULL-end candidates also with '
         'add_cimobjects); every stored instance and every class is a source; filter tuples come '
@@ -75,44 +75,44 @@ Qualifier Association : boolean = false, Scope(association), Flavor(DisableOverr
 """
 SCHEMA = """
 class A { [Key] string k; };
-class A1 : A { };
+class Aß : A { };
 class B { [Key] string k; };
 [Association] class R { [Key] A REF x; [Key] B REF y; };
-[Association] class R1 : R { };
+[Association] class Rß : R { };
 [Association] class Q { [Key] A REF l; [Key] A REF r; };
 [Association] class T { [Key] A REF a; [Key] B REF b; [Key] A REF c; };
 [Association] class N { [Key] string id; A REF l; B REF r; };
 """
 # the harness's own description of the world (the reference model never asks pywbem)
-CLASSES = {'a': None, 'a1': 'a', 'b': None, 'r': None, 'r1': 'r', 'q': None, 't': None, 'n': None}
-CLASSNAMES = ['A', 'A1', 'B', 'R', 'R1', 'Q', 'T', 'N']
-ASSOC_REFS = {'R': ['x', 'y'], 'R1': ['x', 'y'], 'Q': ['l', 'r'], 'T': ['a', 'b', 'c'],
+CLASSES = {'a': None, 'aß': 'a', 'b': None, 'r': None, 'rß': 'r', 'q': None, 't': None, 'n': None}
+CLASSNAMES = ['A', 'Aß', 'B', 'R', 'Rß', 'Q', 'T', 'N']
+ASSOC_REFS = {'R': ['x', 'y'], 'Rß': ['x', 'y'], 'Q': ['l', 'r'], 'T': ['a', 'b', 'c'],
               'N': ['l', 'r']}
 ASSOC_LC = {c.lower() for c in ASSOC_REFS}
 ROLES_LC = {r for v in ASSOC_REFS.values() for r in v}
 
 # node instances per family: flag -> [(class, key)]
 NODES = {
-    'small': {'d': [('A', 'a1'), ('A', 'a2'), ('A1', 'a3'), ('B', 'b1'), ('B', 'b2')],
+    'small': {'d': [('A', 'a1'), ('A', 'a2'), ('Aß', 'a3'), ('B', 'b1'), ('B', 'b2')],
               'o': [('A', 'a1'), ('B', 'b1')]},
-    'large': {'d': [('A', 'a1'), ('A', 'a2'), ('A', 'a4'), ('A1', 'a3'), ('A1', 'a5'),
+    'large': {'d': [('A', 'a1'), ('A', 'a2'), ('A', 'a4'), ('Aß', 'a3'), ('Aß', 'a5'),
                     ('B', 'b1'), ('B', 'b2'), ('B', 'b3')],
               'o': [('A', 'a1'), ('B', 'b1')]},
 }
 
 FILTERS = ('AssocClass', 'ResultClass', 'Role', 'ResultRole')
 REF_FILTERS = ('ResultClass', 'Role')
-# per-filter alphabets: existing, case variant, subclass (R1 of R; A1 of A), superclass (R of R1;
-# A of A1), existing class of the wrong kind (A as AssocClass, R as ResultClass), non-existing
-AC_VALUES = ['R', 'r', 'R1', 'Q', 'T', 'N', 'A', 'NoSuch']
-RC_VALUES = ['A', 'a', 'A1', 'B', 'R', 'NoSuch']
+# per-filter alphabets: existing, case variant, subclass (Rß of R; Aß of A), superclass (R of Rß;
+# A of Aß), existing class of the wrong kind (A as AssocClass, R as ResultClass), non-existing
+AC_VALUES = ['R', 'r', 'Rß', 'Q', 'T', 'N', 'A', 'NoSuch']
+RC_VALUES = ['A', 'a', 'Aß', 'B', 'R', 'NoSuch']
 ROLE_VALUES = ['x', 'X', 'y', 'l', 'r', 'a', 'c', 'nosuch']
 ALPHA = {'assoc': {'AssocClass': AC_VALUES, 'ResultClass': RC_VALUES, 'Role': ROLE_VALUES,
                    'ResultRole': ROLE_VALUES},
          'ref': {'ResultClass': AC_VALUES, 'Role': ROLE_VALUES + ['b']}}
 # reduced alphabets (existing names only) used where the full ones are too expensive
-AC_EXIST = ['R', 'R1', 'Q', 'T']
-RC_EXIST = ['A', 'A1', 'B']
+AC_EXIST = ['R', 'Rß', 'Q', 'T']
+RC_EXIST = ['A', 'Aß', 'B']
 ROLE_EXIST = ['x', 'y', 'l', 'r', 'a', 'c']
 ALPHA_EXIST = {'assoc': {'AssocClass': AC_EXIST, 'ResultClass': RC_EXIST, 'Role': ROLE_EXIST,
                          'ResultRole': ROLE_EXIST},
@@ -120,8 +120,8 @@ ALPHA_EXIST = {'assoc': {'AssocClass': AC_EXIST, 'ResultClass': RC_EXIST, 'Role'
 
 BOUNDS = {
     'quick': {
-        'nodes': 'default namespace A: a1, a2; A1: a3; B: b1, b2; other namespace A.a1, B.b1',
-        'candidates': '44: R 6, R1 6, Q 6 (l != r), T 18 (6 with a == c), special 8 '
+        'nodes': 'default namespace A: a1, a2; Aß: a3; B: b1, b2; other namespace A.a1, B.b1',
+        'candidates': '44: R 6, Rß 6, Q 6 (l != r), T 18 (6 with a == c), special 8 '
                       '(self-association Q(a1,a1); N with both ends / explicit NULL end via '
                       'CreateInstance / omitted end / NULL end via add_cimobjects; R, Q (same '
                       'class and key, other namespace) and T with an end in the other namespace)',
@@ -135,12 +135,12 @@ BOUNDS = {
         'class_level': '<= 2 filters set + all four existing, 10 source class names, 2 graphs',
     },
     'thorough': {
-        'nodes': 'small family as quick; large family A: a1, a2, a4; A1: a3, a5; B: b1, b2, b3',
+        'nodes': 'small family as quick; large family A: a1, a2, a4; Aß: a3, a5; B: b1, b2, b3',
         'candidates': 'small family 57: the quick candidates + 13 special (self-association on '
                       'every A node, NULL/omitted ends on either side or both, cross-namespace '
-                      'created from the other namespace / both ends foreign / R1 / ternary, class '
+                      'created from the other namespace / both ends foreign / Rß / ternary, class '
                       'name or namespace of a reference value in another lexical case); large '
-                      'family 125: R, R1, Q, T over all nodes',
+                      'family 125: R, Rß, Q, T over all nodes',
         'graphs': 'small family: every subset of <= 3 candidates; large family: every subset of '
                   '1 or 2 candidates',
         'filters_set_for_referenced_sources_by_graph_size':
@@ -186,10 +186,10 @@ def candidates(tier, family):
     ends: [prop, class, key, namespace flag] | [prop, None] (explicit NULL); an end that is not
     listed is omitted from the new instance"""
     nodes = NODES[family]['d']
-    an = [(c, k) for c, k in nodes if c in ('A', 'A1')]
+    an = [(c, k) for c, k in nodes if c in ('A', 'Aß')]
     bn = [(c, k) for c, k in nodes if c == 'B']
     out = []
-    for cls in ('R', 'R1'):
+    for cls in ('R', 'Rß'):
         for a in an:
             for b in bn:
                 out.append([cls, 'd', 'create', [_end('x', *a), _end('y', *b)]])
@@ -203,7 +203,7 @@ def candidates(tier, family):
                 out.append(['T', 'd', 'create', [_end('a', *a), _end('b', *b), _end('c', *c)]])
     if family == 'large':
         return out
-    a1, a2, a3, b1, b2 = ('A', 'a1'), ('A', 'a2'), ('A1', 'a3'), ('B', 'b1'), ('B', 'b2')
+    a1, a2, a3, b1, b2 = ('A', 'a1'), ('A', 'a2'), ('Aß', 'a3'), ('B', 'b1'), ('B', 'b2')
     special = [
         ['Q', 'd', 'create', [_end('l', *a1), _end('r', *a1)]],                      # self
         ['N', 'd', 'create', [_end('l', *a1), _end('r', *b1)], 'n1'],
@@ -224,7 +224,7 @@ def candidates(tier, family):
             ['N', 'd', 'add', [['l', None], ['r', None]], 'n8'],
             ['R', 'o', 'create', [_end('x', *a1), _end('y', 'B', 'b1', 'o')]],       # from other ns
             ['R', 'd', 'create', [_end('x', 'A', 'a1', 'o'), _end('y', 'B', 'b1', 'o')]],  # foreign
-            ['R1', 'd', 'create', [_end('x', *a3), _end('y', 'B', 'b1', 'o')]],
+            ['Rß', 'd', 'create', [_end('x', *a3), _end('y', 'B', 'b1', 'o')]],
             ['T', 'd', 'create', [_end('a', 'A', 'a1', 'o'), _end('b', *b1),
                                   _end('c', 'A', 'a1', 'd')]],
             ['R', 'd', 'create', [_end('x', 'a', 'a2'), _end('y', 'b', 'b2')]],      # case variant
